@@ -39,6 +39,21 @@ pub fn engine_kind(kind: usize) -> Engine {
     if kind == 9 {
         return engine_pk(&[0]);
     }
+    if kind == 10 {
+        // three voices with unequal weights on every quantity: with an utterance of >= 64 states this is the largest
+        // configuration any check runs repeatedly (work the library might hand to helpers only pays off at this size)
+        let mut e = engine_pk(&[0, 1, 2]);
+        let w = [0.5, 0.3, 0.2];
+        let iw = e.condition.get_interporation_weight_mut();
+        iw.set_duration(&w).unwrap();
+        for i in 0..3 {
+            iw.set_parameter(i, &w).unwrap();
+        }
+        for i in 0..2 {
+            iw.set_gv(i, &w).unwrap();
+        }
+        return e;
+    }
     if kind == 4 || kind == 5 {
         // interpolated voice sets (2 and 3 voices with different trees): the weighted-average path is shared code too
         let cfg = voice_cfg(0);
@@ -617,6 +632,68 @@ fn run_sched_child(kind: usize, tuple: &[usize], bound: usize, gran: u8, wall: u
 }
 
 // ---------------------------------------------------------------------------------------------
+// generators of two different engines alive on one thread and stepped alternately (a server streaming two voices)
+// ---------------------------------------------------------------------------------------------
+fn cross_engine_part(rep: &Report) {
+    // the five voice kinds plus two that differ from kinds 0 and 2 only in sampling rate and spectral order (same
+    // log-F0 values frame by frame, different everything that is derived from rate or order): kinds 100 and 102
+    let kinds = [0usize, 1, 2, 3, 6, 100, 102];
+    let utts = utterances();
+    let u = &utts[1];
+    let engines: Vec<Engine> = kinds
+        .iter()
+        .map(|k| {
+            if *k >= 100 {
+                let cfg = GenCfg { rate: if *k == 100 { 48000 } else { 8000 }, order: if *k == 100 { 6 } else { 5 }, ..voice_cfg(*k - 100) };
+                let mut e = engine_from_bytes(&cfg.bytes()).expect("generated voice");
+                e.condition.set_beta(0.3);
+                e
+            } else {
+                engine_kind(*k)
+            }
+        })
+        .collect();
+    let solo: Vec<Result<Vec<f64>, String>> = engines.iter().map(|e| synth(e, u)).collect();
+    let mut n = 0u64;
+    for (ai, a) in engines.iter().enumerate() {
+        for (bi, b) in engines.iter().enumerate() {
+            let (Ok(sa), Ok(sb)) = (&solo[ai], &solo[bi]) else { continue };
+            rep.eval(1);
+            n += 1;
+            let r = catch(|| -> Result<(Vec<f64>, Vec<f64>), String> {
+                let mut ga = a.generator(&u[..]).map_err(|e| e.to_string())?;
+                let mut gb = b.generator(&u[..]).map_err(|e| e.to_string())?;
+                let (mut oa, mut ob) = (Vec::new(), Vec::new());
+                loop {
+                    let mut buf = vec![0.0; ga.fperiod()];
+                    let na = ga.generate_step(&mut buf);
+                    oa.extend_from_slice(&buf[..na]);
+                    let mut buf = vec![0.0; gb.fperiod()];
+                    let nb = gb.generate_step(&mut buf);
+                    ob.extend_from_slice(&buf[..nb]);
+                    if na == 0 && nb == 0 {
+                        break;
+                    }
+                }
+                Ok((oa, ob))
+            });
+            rep.cmp(2);
+            let rp = json!({"part": "cross", "voice_kind_a": kinds[ai], "voice_kind_b": kinds[bi]});
+            match r {
+                Err(p) => rep.violation("cross-engine-panic", format!("generators of voice kinds {} and {} stepped alternately: {}", kinds[ai], kinds[bi], p), rp),
+                Ok(Err(e)) => rep.violation("cross-engine-panic", format!("generators of voice kinds {} and {}: {}", kinds[ai], kinds[bi], e), rp),
+                Ok(Ok((oa, ob))) => {
+                    if !bits_eq(&oa, sa) || !bits_eq(&ob, sb) {
+                        rep.violation("cross-engine", format!("generators of voice kinds {} and {} stepped alternately on one thread: the {} one differs from its solo synthesis", kinds[ai], kinds[bi], if bits_eq(&oa, sa) { "second" } else { "first" }), rp);
+                    }
+                }
+            }
+        }
+    }
+    rep.note("cross_engine_pairs", json!(n));
+}
+
+// ---------------------------------------------------------------------------------------------
 // process history: what a process synthesized before must not matter (state that outlives an engine: statics,
 // lazily built tables). Every run is its own child process; the reference is a child that only does the second step.
 // ---------------------------------------------------------------------------------------------
@@ -920,11 +997,12 @@ fn setter_alphabet(ns: usize) -> Vec<Act> {
 pub fn run(tier: Tier) -> i32 {
     let rep: &'static Report = Box::leak(Box::new(Report::new("C03", tier, "model_checking")));
     let monitor = Arc::new(HangMonitor::start(rep, "C03 call history"));
-    rep.set_rule("HIST (stateright BFS, no state merging): all call histories to the depth bound over {synthesize(u) for 4 utterances (one of them time-stamped), clone+synthesize, open a generator (<= 2 live), step it, finish it, set/reset 7 condition setters incl. alignment and frame period} on one real engine, every output compared bit-exactly with a baseline computed by a fresh child process for (condition values, labels); SCHED: for each tuple of programs {synthesize(u1), synthesize(u2), generator(u1) stepped, clone().synthesize(u1)} on one shared engine (mel-cepstral and LSP voices with GV, postfilter and mixed excitation, one and two states per phoneme; an interpolated 2-voice set), every schedule with <= B preemptions at verif-hooks sites under a controlled scheduler (one agent runs at a time), outputs compared with solo baselines; all sequences of <= 2/3 setter calls followed by one canonical assignment vs a fresh engine; process history (every ordered pair of voice kinds and (setter value, default) pairs, the second synthesis of a fresh child process vs the same synthesis alone in a fresh child process); every setter value called on a clone / on the original / after a generator started, with the other copy or the running generator observed; compile-time Send/Sync/Clone assertion; non-trivial = history/schedule with at least two synthesis operations");
+    rep.set_rule("HIST (stateright BFS, no state merging): all call histories to the depth bound over {synthesize(u) for 4 utterances (one of them time-stamped), clone+synthesize, open a generator (<= 2 live), step it, finish it, set/reset 7 condition setters incl. alignment and frame period} on one real engine, every output compared bit-exactly with a baseline computed by a fresh child process for (condition values, labels); SCHED: for each tuple of programs {synthesize(u1), synthesize(u2), generator(u1) stepped, clone().synthesize(u1)} on one shared engine (mel-cepstral and LSP voices with GV, postfilter and mixed excitation, one and two states per phoneme; an interpolated 2-voice set), every schedule with <= B preemptions at verif-hooks sites under a controlled scheduler (one agent runs at a time), outputs compared with solo baselines; all sequences of <= 2/3 setter calls followed by one canonical assignment vs a fresh engine; generators of every ordered pair of voice kinds stepped alternately on one thread vs their solo syntheses; process history (every ordered pair of voice kinds and (setter value, default) pairs, the second synthesis of a fresh child process vs the same synthesis alone in a fresh child process); every setter value called on a clone / on the original / after a generator started, with the other copy or the running generator observed; compile-time Send/Sync/Clone assertion; non-trivial = history/schedule with at least two synthesis operations");
     rep.assume("preemptions only at verif-hooks sites (fine: every site, impulse-response loop thinned to every 191st iteration; coarse: stage boundaries); at most 3 controlled threads and 2 preemptions; weak-memory effects are not modelled");
     static_part(rep);
     source_scan(rep);
     clone_part(rep);
+    cross_engine_part(rep);
     let utts = utterances();
     let mut total_sched = 0u64;
     let mut multi_trace = 0usize;
@@ -1113,7 +1191,7 @@ pub fn run(tier: Tier) -> i32 {
     // threads (so engine-held state starts cold); the reference comes from a different engine.
     {
         let corpus = labels::corpus();
-        let cases: Vec<(usize, Vec<String>, usize)> = vec![(9, corpus[0..tier.pick(6, 12)].to_vec(), tier.pick(6, 20)), (0, utts[1].clone(), tier.pick(20, 100)), (1, utts[1].clone(), tier.pick(20, 100)), (4, utts[1].clone(), tier.pick(20, 100))];
+        let cases: Vec<(usize, Vec<String>, usize)> = vec![(9, corpus[0..tier.pick(6, 12)].to_vec(), tier.pick(6, 20)), (0, utts[1].clone(), tier.pick(20, 100)), (1, utts[1].clone(), tier.pick(20, 100)), (4, utts[1].clone(), tier.pick(20, 100)), (10, corpus[0..14].to_vec(), tier.pick(3, 10))];
         let mut total_runs = 0u64;
         let mut mismatches = 0u64;
         for (kind, u, rounds) in &cases {
